@@ -1009,7 +1009,12 @@ pub fn generate(seed: u64, prop: &str) -> Scenario {
         header_stage,
         header_path,
         peer_style,
-        peer_strict_orphan: false,
-        miner_blocks: Vec::new(),
+        peer_strict_orphan: header_path == 1 && peer_style == 3,
+        // in a third of the headers-first runs a few blocks are found by the node's own miner
+        // (submit_block path) while their children are announced by peers
+        miner_blocks: {
+            let mut rm = Rng::new(seed ^ 0xC03_317E);
+            if header_path == 1 && rm.chance(1, 3) { (0..rm.urange(1, 3)).map(|_| rm.urange(1, n.max(1))).collect() } else { Vec::new() }
+        },
     }
 }
